@@ -310,8 +310,15 @@ func limitSleepShape(c *Ctx, lr *limitRoles, rule string, strict bool) {
 		return []*Sym{s}
 	}
 	isInterval := func(s *Sym) bool {
-		_, path, ok := s.StripConv().FieldPath()
-		return ok && strings.Join(path, ".") == "opts.Limit.Interval"
+		// the Interval may reach the sleeping function as an argument
+		rs := resolve(s)
+		for _, x := range rs {
+			_, path, ok := x.StripConv().FieldPath()
+			if !ok || strings.Join(path, ".") != "opts.Limit.Interval" {
+				return false
+			}
+		}
+		return len(rs) > 0
 	}
 	// elapsed forms: time.Since(t0) | time.Now().Sub(t0)  with t0 = time.Now() value
 	elapsedT0 := func(s *Sym) (ssa.Value, ssa.Value, bool) {
